@@ -75,3 +75,20 @@ Theorem C16_typographic_names_always_readable : forall vals f s f1 s1,
   typographic_family (name_records vals) = f /\ typographic_subfamily (name_records vals) = s.
 Proof. exact typographic_names_readable. Qed.
 Print Assumptions C16_typographic_names_always_readable.
+
+(* ---- vertical tables: built exactly when all three vhea metrics are present; the generated .notdef is always accepted ---- *)
+From U2F Require Import Info.Fallback Info.Vertical Info.VerticalProofs.
+
+Theorem C16_vertical_tables_iff_all_three_metrics : forall a d g,
+  vertical_enabled a d g = true <-> (a <> None /\ d <> None /\ g <> None).
+Proof. exact vertical_iff_all_three. Qed.
+Print Assumptions C16_vertical_tables_iff_all_three_metrics.
+
+Theorem C16_generated_notdef_height_accepted : forall i, vmtx_accepts (stub_height i) = true.
+Proof. exact notdef_height_accepted. Qed.
+Print Assumptions C16_generated_notdef_height_accepted.
+
+(* repaired defect F22: the plain difference ascender - descender was rejected for ascender 0, descender 100 *)
+Example C16_plain_difference_rejected : vmtx_accepts (0 - 100) = false.
+Proof. exact plain_difference_rejected. Qed.
+Print Assumptions C16_plain_difference_rejected.
